@@ -245,6 +245,40 @@ impl FixtureDatabase {
             .chain(args.kwonlyargs.iter())
     }
 
+    /// Columns of the *content* of a string literal occupying `range` (fixture names in
+    /// `usefixtures(...)` / `parametrize(..., indirect=...)`), skipping any string prefix
+    /// (`r`, `b`, `u`, `f`, ...) and the opening/closing quotes (single or triple).
+    /// Falls back to "one quote on each side" when the literal cannot be classified.
+    fn string_content_columns(
+        &self,
+        content: &str,
+        range: rustpython_parser::text_size::TextRange,
+        line_index: &[usize],
+    ) -> (usize, usize) {
+        let start_char = self.get_char_position_from_offset(range.start().to_usize(), line_index);
+        let end_char = self.get_char_position_from_offset(range.end().to_usize(), line_index);
+        let literal = content
+            .get(range.start().to_usize()..range.end().to_usize())
+            .unwrap_or("");
+        let prefix_len = literal
+            .bytes()
+            .take_while(|b| b.is_ascii_alphabetic())
+            .count();
+        let rest = &literal[prefix_len.min(literal.len())..];
+        let quote_len = if rest.starts_with("\"\"\"") || rest.starts_with("'''") {
+            3
+        } else {
+            1
+        };
+        let start = start_char + prefix_len + quote_len;
+        let end = end_char.saturating_sub(quote_len);
+        if start <= end {
+            (start, end)
+        } else {
+            (start_char.saturating_add(1), end_char.saturating_sub(1))
+        }
+    }
+
     /// Helper to record a fixture usage in the database.
     /// Reduces code duplication across multiple call sites.
     /// Also maintains usage_by_fixture reverse index for efficient reference lookups.
@@ -319,7 +353,12 @@ impl FixtureDatabase {
                 |target| matches!(target, Expr::Name(name) if name.id.as_str() == "pytestmark"),
             );
             if is_pytestmark {
-                self.visit_pytestmark_assignment(Some(&assign.value), file_path, line_index);
+                self.visit_pytestmark_assignment(
+                    Some(&assign.value),
+                    file_path,
+                    content,
+                    line_index,
+                );
             }
         }
 
@@ -333,6 +372,7 @@ impl FixtureDatabase {
                 self.visit_pytestmark_assignment(
                     ann_assign.value.as_deref(),
                     file_path,
+                    content,
                     line_index,
                 );
             }
@@ -346,10 +386,8 @@ impl FixtureDatabase {
                 for (fixture_name, range) in usefixtures {
                     let usage_line =
                         self.get_line_from_offset(range.start().to_usize(), line_index);
-                    let start_char =
-                        self.get_char_position_from_offset(range.start().to_usize(), line_index);
-                    let end_char =
-                        self.get_char_position_from_offset(range.end().to_usize(), line_index);
+                    let (start_char, end_char) =
+                        self.string_content_columns(content, range, line_index);
 
                     info!(
                         "Found usefixtures usage on class: {} at {:?}:{}:{}",
@@ -360,8 +398,8 @@ impl FixtureDatabase {
                         file_path,
                         fixture_name,
                         usage_line,
-                        start_char + 1,
-                        end_char - 1,
+                        start_char,
+                        end_char,
                     );
                 }
             }
@@ -400,10 +438,8 @@ impl FixtureDatabase {
             let usefixtures = decorators::extract_usefixtures_names(decorator);
             for (fixture_name, range) in usefixtures {
                 let usage_line = self.get_line_from_offset(range.start().to_usize(), line_index);
-                let start_char =
-                    self.get_char_position_from_offset(range.start().to_usize(), line_index);
-                let end_char =
-                    self.get_char_position_from_offset(range.end().to_usize(), line_index);
+                let (start_char, end_char) =
+                    self.string_content_columns(content, range, line_index);
 
                 info!(
                     "Found usefixtures usage on function: {} at {:?}:{}:{}",
@@ -414,8 +450,8 @@ impl FixtureDatabase {
                     file_path,
                     fixture_name,
                     usage_line,
-                    start_char + 1,
-                    end_char - 1,
+                    start_char,
+                    end_char,
                 );
             }
         }
@@ -425,10 +461,8 @@ impl FixtureDatabase {
             let indirect_fixtures = decorators::extract_parametrize_indirect_fixtures(decorator);
             for (fixture_name, range) in indirect_fixtures {
                 let usage_line = self.get_line_from_offset(range.start().to_usize(), line_index);
-                let start_char =
-                    self.get_char_position_from_offset(range.start().to_usize(), line_index);
-                let end_char =
-                    self.get_char_position_from_offset(range.end().to_usize(), line_index);
+                let (start_char, end_char) =
+                    self.string_content_columns(content, range, line_index);
 
                 info!(
                     "Found parametrize indirect fixture usage: {} at {:?}:{}:{}",
@@ -439,8 +473,8 @@ impl FixtureDatabase {
                     file_path,
                     fixture_name,
                     usage_line,
-                    start_char + 1,
-                    end_char - 1,
+                    start_char,
+                    end_char,
                 );
             }
         }
@@ -682,6 +716,7 @@ impl FixtureDatabase {
         &self,
         value: Option<&Expr>,
         file_path: &PathBuf,
+        content: &str,
         line_index: &[usize],
     ) {
         let Some(value) = value else {
@@ -691,22 +726,14 @@ impl FixtureDatabase {
         let usefixtures = decorators::extract_usefixtures_from_expr(value);
         for (fixture_name, range) in usefixtures {
             let usage_line = self.get_line_from_offset(range.start().to_usize(), line_index);
-            let start_char =
-                self.get_char_position_from_offset(range.start().to_usize(), line_index);
-            let end_char = self.get_char_position_from_offset(range.end().to_usize(), line_index);
+            let (start_char, end_char) = self.string_content_columns(content, range, line_index);
 
             info!(
                 "Found usefixtures usage via pytestmark assignment: {} at {:?}:{}:{}",
                 fixture_name, file_path, usage_line, start_char
             );
 
-            self.record_fixture_usage(
-                file_path,
-                fixture_name,
-                usage_line,
-                start_char.saturating_add(1),
-                end_char.saturating_sub(1),
-            );
+            self.record_fixture_usage(file_path, fixture_name, usage_line, start_char, end_char);
         }
     }
 }
